@@ -154,6 +154,14 @@ class Run:
                     delivered += 1
             elif name == 'iter':
                 n = min(op[1], len(expected) - delivered)
+                if n == 0:
+                    # a consumer draining "as many as are outstanding" when nothing is: an empty, non-blocking iteration that
+                    # leaves the stream untouched (the results that follow are still delivered in order to later calls)
+                    r = self.call(lambda: list(w.results_iter(maxitems=0)))
+                    if r[0] != 'ok' or r[1] != []:
+                        self.viol('results-delivered', f'results_iter0-{r[0]}:{type(r[1]).__name__ if r[0] != "ok" else len(r[1])}',
+                                  self.sim.blocked_report()[:4] if r[0] == 'hung' else None)
+                        return
                 if n > 0:
                     r = self.call(lambda: list(w.results_iter(maxitems=n)))
                     if r[0] != 'ok':
